@@ -89,7 +89,9 @@ class Models14(OnionModels):
         path.assume(z3.Not(b))
         self.glog_add(path, 'awaited', (what, 'ok'))
         self.glog_add(pr, 'awaited', (what, 'fail'))
-        exc = ex.new_inst(pr, RuntimeError, args=VTuple([VStr('failure of ' + what)]))
+        # a failure of some class: a handler narrower than Exception may or may not catch it
+        exc = ex.new_inst(pr, Exception, args=VTuple([VStr('failure of ' + what)]))
+        pr.heap[('f', exc.oid, '__unknown_class__')] = VBool(True)
         res = VStr(z3.String('raw_reply')) if what == 'reply' else VOpaque('result', ex.fresh_int(path, 'res'))
         return [(path, res), (pr, Raise(exc))]
 
